@@ -68,7 +68,7 @@ pub fn drive(tr: &mut Tracer, rng: &mut StdRng, thorough: bool) {
     }
     // exp delivers the configured number of digits
     for (dg, sc, neg) in [("1", 0i64, false), ("5", 1, false), ("25", 1, true), ("17", 0, false), ("123456789", 7, true), ("3", 0, true)] {
-        tr.emit(json!({"op": "exp", "a": dec(neg, dg, sc)}));
+        tr.emit(json!({"op": "exp", "exactp": true, "a": dec(neg, dg, sc)}));
         tr.cut();
     }
     // round(n) uses the configured mode: ties and near ties
